@@ -8,7 +8,7 @@
 """
 import os, re, sys
 from vlib import core
-from checks import dsgen
+from checks import dsgen, c03scale
 
 TRUST = ("Lean 4.33 kernel; axioms at most propext/Classical.choice/Quot.sound (audited per run); "
          "optimalBatchSizes/batchPartitioning are machine-translated from the C++ on every run (clang-14 JSON AST -> Lean, "
@@ -60,8 +60,33 @@ MANIFEST = dict(
         "type and batch-wise over sparse batches; after every op the independence flags of every container are compared with the model's use-counts) "
         "on unsigned, RealVector, CompressedRealVector and user-struct elements and on WeightedLabeledData under ASan/UBSan, plus an independent "
         "in-harness oracle that keeps a flat std::vector beside every dataset, re-reads every state through the const and non-const element/batch "
-        "proxies and repeats every iterator jump on Data<I>, Data<label> (const and non-const) and LabeledData iterators with +=, -=, +, ++/--."),
-  note=TRUST + "covered by the correspondence and the oracle only (modelled, no theorem): Data(n, x, m) being filled through the element iterator, "
+        "proxies and repeats every iterator jump on Data<I>, Data<label> (const and non-const) and LabeledData iterators with +=, -=, +, ++/--. "
+        "(J) INDEX WIDTH -- what the theorems assume: every index, position, size and batch count is an unbounded Nat in the models, i.e. the C++ "
+        "keeps them in std::size_t / std::ptrdiff_t and the element count stays below 2^64.  The first half is a regenerated obligation: "
+        "translate/index_types.py lists (clang AST, on every run) every integer-typed field, variable, parameter, typedef, function result and "
+        "explicit cast of Dataset.h, Impl/Dataset.inl, DataView.h, WeightedDataset.h, BatchInterface.h, Core/utility/Iterators.h and functional.h "
+        "(about 300 declarations: DataView::Index, the positions of DataElementIterator / DataView::IteratorBase / IndexingIterator, loop counters, "
+        "getPartitioning, IndexSet) and Gen/IndexTypes.lean proves each 64 bits wide (index_fields_are_size_t); the only narrower declarations are "
+        "recognised class labels (unsigned int) and the int counters of the two OpenMP loops over batches in transform (assumption: fewer than 2^31 "
+        "batches).  Props/C03Index.lean: the per-element table DataView(dataset) builds with Index fields of wb/wp/wi bits equals the model's table "
+        "whenever #batches <= 2^wb, batch sizes <= 2^wp and n <= 2^wi (view_packed_faithful), instantiated with the regenerated widths for all datasets "
+        "with n < 2^64 (view_faithful_at_source_widths); witnesses that below the width view[i] aliases another element.  "
+        "SCALE FAMILY (harness/c03s.cpp; ORACLE ONLY, no Lean model at this size; the independent oracle is a flat std::vector<(id,label)> per slot, "
+        "exact integer comparison): on every run in both tiers 5 directed histories x {unsigned, RealVector} on counter-valued datasets with ONE BATCH "
+        "of 65537..71536 elements, with 65537+ BATCHES of size 1, the sized constructor, 2^16-1 / 2^16 / 2^16+1 elements in both shapes and 256-element "
+        "batches; every access path (element(i), begin()+i, elements() both directions const/non-const, batches(), inputs()/labels(), iterator jumps "
+        "+= -= + - ++ -- on five iterator flavours to and from positions around 2^16) and every operation of the property (views of four flavours incl. "
+        "batch(i)/positionInBatch(i)/index(i), subsets of subsets, toDataset with batch size 1/default/unlimited, subBatch, randomSubset of more than 2^16 "
+        "elements, writes through dataset and view proxies, splitAtElement/splitBatch/splice at 2^16 and 2^16+1, append, push_back, indexedSubset and "
+        "complement of tens of thousands of batches, repartition one batch <-> unit batches, reorderElements, shuffle, repartitionByClass with a class "
+        "batch above 2^16, binarySubProblem, oneVersusRest, transform) is driven through the 16-bit boundary.  MID-SIZE histories (on the Lean model, "
+        "exact correspondence like every other case): every run ends with 6 (quick) / 24 (thorough) histories on datasets of 255/256/257/511..513/200..700 "
+        "elements with maximum batch sizes 0 (default 256), 1, 100, 128, 255..257, n, n+1 -- several batches under the default batch size, 8-bit boundaries."),
+  note=TRUST + "translate/index_types.py (clang-14 JSON AST -> list of integer-typed declarations, allowlist of label / OpenMP-counter names) is trusted; "
+       "the scale family is oracle-only (no model run at 2^16 elements): O(#batches) accessors are read at every position only while n*#batches <= 3e6, "
+       "else around multiples of 2^16, batch borders around batch 2^16, the ends and 10 pseudo-random positions; index types narrower than 64 but wider "
+       "than ~17 bits are decided by the static obligation alone (no run reaches 2^32 elements).  "
+       "Covered by the correspondence and the oracle only (modelled, no theorem): Data(n, x, m) being filled through the element iterator, "
        "randomSubset drawing distinct positions (observed draw checked), the value a write through a proxy leaves in the writer itself when it holds "
        "a batch twice, bootstrap (oracle only: weights count k draws), weightedInputs(), the weights container of WeightedLabeledData sharing "
        "exactly like the label container (oracle), binarySubProblem/repartitionByClass at the pointer level (shared inputs, fresh labels; value "
@@ -71,19 +96,24 @@ MANIFEST = dict(
        "while a probe fails the random stream keeps away from its trigger (evidence `stream_avoids_open_findings`) and, for F-C03-16, runs the model "
        "with the unrepaired toDataset shape behaviour (`legacy-v2d-shape`).",
   technique="Lean 4 proofs (induction over partitions and operation histories; simulation of a pointer-sharing model by a value model) on models whose "
-            "batch arithmetic is regenerated from the C++ on every run + differential correspondence with the real containers (ASan/UBSan)",
+            "batch arithmetic and index widths are regenerated from the C++ on every run + differential correspondence with the real containers "
+            "(ASan/UBSan) + a directed oracle-only scale family across the 2^16 boundary",
   design="§6 C03, §14 C03")
 
 FINISH = dict(level="proof",
               rule="histories of dataset operations generated against the Lean model from one SplitMix64 stream; a case is non-trivial if it "
                    "contains at least 4 structure-changing ops; distinct = distinct op text")
 
-LAKE_TARGETS = ["SharkVerif.Props.C03", "drv_c03"]
+LAKE_TARGETS = ["SharkVerif.Props.C03", "SharkVerif.Props.C03Index", "drv_c03"]
+PROVE = ["SharkVerif.Props.C03", "SharkVerif.Gen.IndexTypes", "SharkVerif.Props.C03Index"]
 TYPES = [("uint", []), ("real", ["3"]), ("sparse", ["7"]), ("blob", [])]
 
 
 def translate(ctx):
-    return ctx.translate("batch_arith.py")
+    a = ctx.translate("batch_arith.py")
+    # T0b: every integer-typed declaration of the dataset headers with its width -> Gen/IndexTypes.lean (obligation index_fields_are_size_t)
+    b = ctx.translate("index_types.py", "--inc", ctx.shark_h())
+    return a and b
 
 
 TYPES_W = [("wuint", []), ("wreal", ["3"])]     # WeightedLabeledData<I, unsigned> (harness/c03w.cpp)
@@ -100,10 +130,10 @@ def build_w(ctx):
 def build(ctx):
     """both harnesses (used by ./setup); the two TUs compile side by side"""
     from concurrent.futures import ThreadPoolExecutor
-    with ThreadPoolExecutor(max_workers=2) as ex:
-        fe, fw = ex.submit(build_main, ctx), ex.submit(build_w, ctx)
-        exe, exew = fe.result(), fw.result()
-    return exe if exe and exew else None
+    with ThreadPoolExecutor(max_workers=3) as ex:
+        fe, fw, fs = ex.submit(build_main, ctx), ex.submit(build_w, ctx), ex.submit(c03scale.build, ctx)
+        exe, exew, exes = fe.result(), fw.result(), fs.result()
+    return exe if exe and exew and exes else None
 
 
 # ----------------------------------------------------------------------------- generator
@@ -174,9 +204,10 @@ def index_list(ctx, r, nb, what):
     return idx
 
 
-def gen_case(ctx, r, model, maxlen, allowed=None, avoid=()):
+def gen_case(ctx, r, model, maxlen, allowed=None, avoid=(), mid=False):
     """one history; `model` answers with the state after every op.  `allowed`: restrict the op kinds
-    (the weighted-dataset harness supports a subset); `avoid`: triggers of open findings the stream keeps away from"""
+    (the weighted-dataset harness supports a subset); `avoid`: triggers of open findings the stream keeps away from;
+    `mid`: datasets of 200..700 elements (across the default batch size 256 and the 8-bit boundary), still run on the Lean model"""
     ops, base = [], 0
     rng_seen = False      # after a shuffle the generator knows the partitioning but not the element order the real code drew
 
@@ -198,9 +229,12 @@ def gen_case(ctx, r, model, maxlen, allowed=None, avoid=()):
         if "empty-range" not in avoid and r.chance(1, 12):
             n = 0
         m = r.choice([0, 1, 2, 3, 4, max(1, n - 1), max(1, n), n + 1, n + 2, r.range(1, n + 2), r.range(1, n + 2)])
+        if mid:
+            n = r.choice([255, 256, 257, 300, 511, 512, 513, r.range(200, 700), r.range(200, 700)])
+            m = r.choice([0, 0, 0, 1, 100, 128, 255, 256, 257, n, n + 1, r.range(1, n + 2)])
         labels = gen_labels(r, n)
         base += 100
-        ctx.hist("new_n", "0" if n == 0 else "1" if n == 1 else "2-9" if n < 10 else f"{min(n // 10 * 10, 70)}+")
+        ctx.hist("new_n", "0" if n == 0 else "1" if n == 1 else "2-9" if n < 10 else "200-700" if n >= 200 else f"{min(n // 10 * 10, 70)}+")
         ctx.hist("new_maxbatch_rel", "default" if m == 0 else ("1" if m == 1 else ("<n" if m < n else ("=n" if m == n else ">n"))))
         ctx.hist("n_mod_m", "default" if m == 0 else ("divides" if n % m == 0 else "remainder"))
         return emit(f"new {slot} {m} {base} " + " ".join(map(str, labels)))
@@ -470,21 +504,35 @@ def run_open(ctx, exes, drv, feed, extra_driver_args):
 
 def run(ctx):
     ctx.trusted += ["translator translate/batch_arith.py (clang-14 JSON AST -> Lean) for optimalBatchSizes/batchPartitioning",
+                    "translator translate/index_types.py (clang-14 JSON AST -> Gen/IndexTypes.lean: integer-typed declarations of the dataset headers with their widths)",
+                    "scale harness harness/c03s.cpp + checks/c03scale.py (oracle only: flat-vector oracle beside the real containers at 2^16+ elements / batches)",
                     "correspondence harness harness/c03.cpp + generator checks/c03.py (drives the Lean model interactively)",
                     "hand-written models Model/Dataset.lean (values) and Model/DatasetShared.lean (shared batch pointers) for everything except the translated batch arithmetic",
                     "ASan/UBSan runtime for the real code's memory safety (not a theorem)"]
     ctx.assumptions += ["operations respect the C++ preconditions that are SIZE_CHECKs (indices in range, repartition sizes positive and summing to n); "
                         "independence is *not* assumed: makeIndependent() and the 'Container is not Independent' exception are modelled and exercised",
-                        "size_t arithmetic does not overflow 2^64 (all quantities are bounded by the element count)"]
+                        "size_t arithmetic does not overflow 2^64 (all quantities are bounded by the element count); that the C++ keeps every index, position, "
+                        "size and count in 64-bit integers is NOT assumed: it is the regenerated obligation index_fields_are_size_t",
+                        "fewer than 2^31 batches (the two OpenMP loops of transform count batches in `int`)"]
     translate(ctx)
-    ctx.prove(["SharkVerif.Props.C03"])
+    ctx.prove(PROVE)
     if not ctx.quick:
-        ctx.leanchecker(["SharkVerif.Props.C03"])
+        ctx.leanchecker(["SharkVerif.Props.C03", "SharkVerif.Props.C03Index"])
     exe = build(ctx)
     exew = build_w(ctx) if exe else None               # cached after build()
+    exes = c03scale.build(ctx) if exe else None
     drv = ctx.driver("drv_c03")
-    if not exe or not exew or not drv:
-        return
+    # the scale family needs neither the driver nor the proofs: it runs in the background from here on
+    scale = c03scale.start(ctx, exes, core.SplitMix64(ctx.seed).fork("c03scale")) if exes else None
+    try:
+        if exe and exew and drv:
+            run_stream(ctx, exe, exew, drv)
+    finally:
+        if scale:
+            c03scale.finish(ctx, scale)
+
+
+def run_stream(ctx, exe, exew, drv):
     instantiation_probes(ctx)
     feed = os.path.join(core.VERIF, "tools", "obsfeed.py")
     avoid, passing = run_open(ctx, {"main": exe, "w": exew}, drv, feed, [])
@@ -502,6 +550,12 @@ def run(ctx):
             c = gen_case(ctx, r, model, maxlen, avoid=avoid)
             if c:
                 cases.append(c)
+        # mid-size histories (own rng fork: the small histories of a seed stay what they were)
+        rm = core.SplitMix64(ctx.seed).fork("c03mid")
+        for _ in range(int(os.environ.get('VERIF_NCASES_MID', 6 if ctx.quick else 24))):
+            c = gen_case(ctx, rm, model, 20 if ctx.quick else 30, avoid=avoid, mid=True)
+            if c:
+                cases.append(c); ctx.count("mid_size_cases")
         wcases = dsgen.load_corpus("C03W") + passing["w"]
         for _ in range(ncases):
             c = gen_case(ctx, r, model, 2 * maxlen, allowed=W_OPS, avoid=avoid)
@@ -579,6 +633,8 @@ def classify_w(ops, res):
 
 
 def replay(ctx, rep):
+    if rep.get("scale"):
+        return c03scale.replay(ctx, rep)
     drv = ctx.driver("drv_c03")
     cmd = list(rep.get("harness_cmd", ["", "uint"]))
     ty = cmd[1] if len(cmd) > 1 else "uint"
